@@ -9,7 +9,7 @@ predecessor and raises DiffXParseError there; a fully legal sequence is read
 to the end.
 """
 
-from dsim import pipe
+from dsim import gen, pipe
 from dsim import refmodel as R
 from dsim.actors import read_all, exc_summary
 from dsim.world import World
@@ -136,6 +136,7 @@ def generate(rng, tier, cls):
             'style': style if any(style) else [],
             'noise': pipe.gen_noise(rng),
             'crlf': rng.chance(0.15),
+            'stream': gen.gen_stream(rng)[0],
             'block_size': rng.choice([None, None, 1, 9, 97])}
 
 
@@ -193,7 +194,9 @@ def execute(scn, L):
     pipe.run_noise(scn, L, out)
     w = World(scn, L)
     recs, end, exc = read_all(w, data, block_size=scn.get('block_size'),
-                              actor='R')
+                              stream=scn.get('stream') if scn.get('stream')
+                              in ('sim', 'bytesio', 'buffered') else 'sim',
+                              buf=64, actor='R')
     out.absorb(w)
     out.case_key = pipe.scn_digest([ids, bool(scn.get('crlf')),
                                     scn.get('style')])
